@@ -11,12 +11,15 @@ theorem pod_to_bool_eq (b : UInt8) : pod_to_bool b = Pod.boolDecode b ∧ pod_re
   simp [pod_to_bool, pod_ref_to_bool, Pod.boolDecode, bne_iff_ne]
   by_cases h : b = 0 <;> simp [h]
 
-theorem bool_to_pod_eq (x : Bool) : bool_to_pod x = Pod.boolEncode x ∧ bool_ref_to_pod x = Pod.boolEncode x :=
-  ⟨rfl, rfl⟩
+theorem bool_to_pod_eq (x : Bool) : bool_to_pod x = Pod.boolEncode x ∧ bool_ref_to_pod x = Pod.boolEncode x := by
+  cases x <;> exact ⟨rfl, rfl⟩
 
 theorem option_value_eq (isSome isNone : ByteArray → Bool) (inner : ByteArray) :
     option_value isSome isNone inner = Pod.optValue isSome inner ∧
-    option_value_mut isSome isNone inner = Pod.optValue isSome inner := ⟨rfl, rfl⟩
+    option_value_mut isSome isNone inner = Pod.optValue isSome inner := by
+  -- by cases on the some-pattern test: the source may test `is_some`, `!is_some` with the branches swapped, …
+  unfold option_value option_value_mut Pod.optValue
+  cases h : isSome inner <;> simp [h]
 
 theorem load_eq (n : Nat) (data : ByteArray) :
     load n data = (Pod.load n data).toOption ∧ load_mut n data = (Pod.load n data).toOption := by
